@@ -10,6 +10,7 @@ CONSTANTS
   Plus = "add"
   Times = "mul"
   LeafKind = "lin"
+  Param = FALSE
   Tag = "sp_addmul_scaled"
 INVARIANT Inv_OracleInputs
 INVARIANT Emit
